@@ -105,11 +105,11 @@ def step (c : Cfg) : Op → Cfg × Res
       | none => (c, .reject)
   | .sigFigsValue a =>          -- the number is validated (and stored) before the mode is touched
       match intArg Gen.sigValLower a with
-      | some z => ({ c with sigVal := z, sigMode := sigModeIdx "VALUE" }, .ok)
+      | some z => ({ c with sigVal := z, sigMode := sigModeIdx Gen.sigFigsValueMode }, .ok)
       | none => (c, .reject)
   | .sigFigsError a =>
       match intArg Gen.sigValLower a with
-      | some z => ({ c with sigVal := z, sigMode := sigModeIdx "ERROR" }, .ok)
+      | some z => ({ c with sigVal := z, sigMode := sigModeIdx Gen.sigFigsErrorMode }, .ok)
       | none => (c, .reject)
   | .setMcSize a =>
       match intArg Gen.mcSizeLower a with
